@@ -6,6 +6,7 @@ import (
 	"simrt/runner"
 	_ "vh/h3"
 	_ "vh/h4"
+	_ "vh/h1"
 )
 
 func TestSim(t *testing.T) { runner.Main(t) }
